@@ -235,6 +235,35 @@ func (p *Program) collectContracts(verifDir string) (*ContractSet, error) {
 			return nil, err
 		}
 	}
+	ghostAliases = map[string]compInfo{}
+	for g, target := range cs.GhostAlias {
+		i := strings.LastIndex(target, ".")
+		j := strings.LastIndex(target[:i], ".")
+		pkgPath, tname, fname := target[:j], target[j+1:i], target[i+1:]
+		ok := false
+		packages.Visit(p.pkgs, nil, func(pk *packages.Package) {
+			if pk.PkgPath != pkgPath || pk.Types == nil || ok {
+				return
+			}
+			obj := pk.Types.Scope().Lookup(tname)
+			if obj == nil {
+				return
+			}
+			stt, isS := obj.Type().Underlying().(*types.Struct)
+			if !isS {
+				return
+			}
+			for k := 0; k < stt.NumFields(); k++ {
+				if stt.Field(k).Name() == fname {
+					ghostAliases[g] = compInfo{kind: 'F', t: obj.Type(), idx: k}
+					ok = true
+				}
+			}
+		})
+		if !ok {
+			return nil, fmt.Errorf("ghostalias %s: %s not found", g, target)
+		}
+	}
 	return cs, nil
 }
 
